@@ -1,4 +1,5 @@
 import LiquidVerif.Lemmas.TaintRender
+import LiquidVerif.Lemmas.TaintEntRender
 /-!
 # C05 — autoescape keeps render data from injecting HTML
 
@@ -85,5 +86,79 @@ theorem safe_filter_counterexample (P : Prims) :
 the hypotheses hold and the render succeeds. -/
 example : nodesOk [.text "a".toList, .capture "c" [.output (.chain (.var "x") [⟨.append, [.lit "-".toList]⟩])],
     .output (.chain (.var "c") [⟨.upcase, []⟩])] = true := by decide
+
+/-- **First sentence, "every & begins an escape sequence" — partial.** For templates whose literals are clean *and*
+entity-complete and which apply only entity-friendly filters (`FName.entFriendly`: append prepend escape escape_once join first
+last reverse concat default size truncate truncatewords squish base64_* url_encode escapejs), every successful render is free
+of raw specials and each `&` of the output begins one of `&amp; &lt; &gt; &#39; &#34;`. The excluded filters are those that take
+substrings of, replace inside or re-case an already escaped value (counter-examples below) plus a few for which no proof was
+made (listed at `FName.entFriendly`). -/
+theorem amp_entities_partial (P : Prims) (t : List Node) (d : Env) (out : Str)
+    (ht : nodesOkE t = true) (hd : EnvInvE d) (h : render P true t d = .ok out) : Clean out ∧ Ent out := by
+  unfold render at h
+  split at h
+  · rename_i st hst
+    simp only [Except.ok.injEq] at h; subst h
+    exact ((render_inv_auxE P).2.2 t _ ht ⟨fun e he => (by cases he), fun p hp => (by cases hp), hd, good_nil⟩ st hst).out
+  · cases h
+
+/-- a template that is a single output statement renders the value of its expression -/
+theorem render_single (P : Prims) (auto : Bool) (e : Expr) (d : Env) :
+    render P auto [.output e] d =
+      (match evalExpr P auto ⟨[], [], d, [], []⟩ e with | .ok v => .ok (outVal auto v) | .error err => .error err) := by
+  simp only [render, renderNodes, renderNode, St.write]
+  cases evalExpr P auto ⟨[], [], d, [], []⟩ e <;> simp
+
+/-- the one-variable template `{{ x | f₁ | f₂ }}` on the data `x = s` (plain `str`) -/
+def chain2 (f1 f2 : FCall) (s : Str) (P : Prims) (auto : Bool := true) : Except Err Str :=
+  render P auto [.output (.chain (.var "x") [f1, f2])] [("x", .str ⟨s, false⟩)]
+
+/-- the opaque functions are irrelevant to the counter-examples; any instance will do -/
+def noPrims : Prims := ⟨id, id, id, fun _ s => some s, fun _ => []⟩
+
+/-- **The full statement fails in the code as it is**: `{{ x | escape | slice: 0, 1 }}` with `x = "&"` satisfies every
+hypothesis of the property (no literal text, no `safe`) and outputs a bare `&` (known finding `amp|cut`). -/
+theorem amp_entities_counterexample :
+    chain2 ⟨.escape, []⟩ ⟨.slice, [.int 0, .int 1]⟩ ['&'] noPrims = .ok ['&'] ∧ ¬ Ent ['&'] := by
+  refine ⟨?_, by decide⟩
+  rw [chain2, render_single]; rfl
+
+/-- `{{ x | escape | remove: ';' }}` with `x = "<"` outputs `&lt` (known finding `amp|replace`) -/
+theorem amp_entities_counterexample_replace :
+    chain2 ⟨.escape, []⟩ ⟨.remove, [.lit [';']]⟩ ['<'] noPrims = .ok ['&', 'l', 't'] ∧ ¬ Ent ['&', 'l', 't'] := by
+  refine ⟨?_, by decide⟩
+  rw [chain2, render_single]; rfl
+
+/-- `{{ x | escape | upcase }}` with `x = "<"` outputs `&LT;` (known finding `amp|case`) -/
+theorem amp_entities_counterexample_upcase :
+    chain2 ⟨.escape, []⟩ ⟨.upcase, []⟩ ['<'] noPrims = .ok ['&', 'L', 'T', ';'] ∧ ¬ Ent ['&', 'L', 'T', ';'] := by
+  refine ⟨?_, by decide⟩
+  rw [chain2, render_single]; rfl
+
+/-- … none of which is a raw special: the three outputs are `Clean` (as `output_no_raw_specials` says they must be). -/
+example : Clean ['&'] ∧ Clean ['&', 'l', 't'] ∧ Clean ['&', 'L', 'T', ';'] := by decide
+
+/-- **Third sentence, read on outputs, fails in the code as it is**: `{{ x | append: 'a' | size }}` with `x = "<"` renders
+`2` with autoescape off and `5` with autoescape on — neither output contains a special character (known finding
+`noop|escaped-value-observed`: the literal is a `Markup`, so `append` escapes `x`, and `size` measures the escaped text). -/
+theorem autoescape_noop_counterexample :
+    chain2 ⟨.append, [.lit ['a']]⟩ ⟨.size, []⟩ ['<'] noPrims false = .ok ['2'] ∧
+    chain2 ⟨.append, [.lit ['a']]⟩ ⟨.size, []⟩ ['<'] noPrims true = .ok ['5'] := by
+  have hd : ∀ n : Nat, n < 10 → intStr (n : Int) = [Char.ofNat (48 + n)] := by
+    intro n hn
+    have h0 : ¬ ((n : Int) < 0) := by omega
+    simp only [intStr, h0, if_false, Int.natAbs_natCast]
+    rw [natDigits]; simp [hn]
+  constructor
+  · rw [chain2, render_single]
+    show (Except.ok (outVal false (.num (2 : Nat))) : Except Err Str) = _
+    simp only [outVal]; rw [hd 2 (by decide)]
+  · rw [chain2, render_single]
+    show (Except.ok (outVal true (.num (5 : Nat))) : Except Err Str) = _
+    simp only [outVal]; rw [hd 5 (by decide)]
+
+/-- Non-vacuity of `amp_entities_partial`: hypotheses hold for a template with escape, append and join. -/
+example : nodesOkE [.text "a&amp;".toList, .output (.chain (.var "x") [⟨.escape, []⟩, ⟨.append, [.lit "-".toList]⟩]),
+    .output (.chain (.var "arr") [⟨.join, [.lit ", ".toList]⟩])] = true := by decide
 
 end LiquidVerif.C05
